@@ -435,7 +435,12 @@ func init() {
 		}
 		runLevel := [][]string{{"--max-duration", "0s"}, {"--max-duration", "-1s"}, {"--max-duration", "5ms"}, {"--max-duration", "10ms"},
 			{"--max-failures-rate", "-5"}, {"--max-failures-rate", "150"}, {"--max-iterations", "0"}, {"--concurrency", "1"},
-			{"--concurrency", "-1"}, {"--concurrency", "0"}}
+			{"--concurrency", "-1"}, {"--concurrency", "0"},
+			// every value the flag's type admits (math.MaxUint64 as "no limit" is an obvious thing to write), and values
+			// around the concurrency
+			{"--max-iterations", "1", "--concurrency", "3"}, {"--max-iterations", "9223372036854775807"},
+			{"--max-iterations", "9223372036854775808"}, {"--max-iterations", "18446744073709551615"}, {"--max-iterations", "-1"},
+			{"--max-failures", "18446744073709551615"}, {"--concurrency", "100000"}}
 		for _, trg := range []string{"constant", "staged", "ramp", "gaussian", "users"} {
 			for _, extra := range append(append([][]string{}, perTrigger[trg]...), runLevel...) {
 				a := append(append([]string{}, valid[trg]...), extra...)
